@@ -91,6 +91,8 @@ def plan(tier, seed):
         for a, b in itertools.combinations(FEATURES_B[1:], 2):
             cases.append({"kind": "accept", "features": [a, b], "seed": [seed, 124, FEATURES_B.index(a), FEATURES_B.index(b)], "env": {"VERIF_X64": "1"}})
     else:
+        for a, b in (("aux_state", "one_period"), ("state_only_filter", "one_period"), ("mixed_discrete", "one_period")):
+            cases.append({"kind": "accept", "features": [a, b], "seed": [seed, 124, FEATURES_B.index(a), FEATURES_B.index(b)], "env": {"VERIF_X64": "1"}})
         rng = np.random.default_rng([seed, 125])
         allp = list(itertools.combinations(FEATURES_B[1:], 2))
         for j in rng.permutation(len(allp))[:24]:
@@ -267,8 +269,33 @@ def run_accept(desc, res, add, feature_key, rng, init=None):
     p = fill_template(tmpl, desc["params"])
     try:
         sol = fsolve(p)
-        [np.asarray(a) for a in sol]
+        arrs = [np.asarray(a) for a in sol]
         add("solve_runs")
+        # "can be solved": the result is one array per period in one of the admissible layouts
+        # (states that no function except transitions uses may or may not get an axis)
+        try:
+            from vlib.refmodel import Ref as _Ref
+
+            r_ = _Ref(desc)
+            used = {a_ for n_, args_, _ in desc["functions"] if not n_.startswith("next_") for a_ in args_}
+            ok_shapes = True
+            if len(arrs) != desc["n_periods"]:
+                ok_shapes = False
+            else:
+                for t_, a_ in enumerate(arrs):
+                    full = tuple(r_.lcm_shape(t_))
+                    order = (["__sparse__"] if r_.sparse_states else []) + r_.dense_disc_states + r_.cont_states
+                    reduced = tuple(n_ for n_, v_ in zip(full, order) if v_ == "__sparse__" or v_ in used)
+                    if tuple(a_.shape) not in (full, reduced):
+                        ok_shapes = False
+                        bad_ = (t_, tuple(a_.shape), full, reduced)
+                        break
+            add("accepted_solutions_shape_checked")
+            if not ok_shapes:
+                res["violations"].append({"key": f"accepted_but_wrong_result_shape|feature={feature_key}", "what": f"features {feature_key}: solve returned {len(arrs)} arrays / period {bad_[0] if len(arrs) == desc['n_periods'] else '-'} has shape {bad_[1] if len(arrs) == desc['n_periods'] else '-'}; admissible layouts {bad_[2:] if len(arrs) == desc['n_periods'] else desc['n_periods']}"})
+                return "violation"
+        except Exception:  # noqa: BLE001 - shapes of exotic lattice models: not judged
+            add("accepted_solutions_shape_not_judged")
     except Exception as e:  # noqa: BLE001
         res["violations"].append({"key": f"accepted_but_fails|feature={feature_key}|{pipeline.exc_key(e, 'solve')}", "what": f"features {feature_key}: accepted specification fails in solve: {pipeline.exc_text(e)}"})
         return "violation"
